@@ -298,7 +298,8 @@ PROPS = {
                    M_SI + "_split_line", M_SI + "AsNumberAnonymizer._generate_as_number_replacement",
                    M_JS + "juniper_nonrandom_encrypt", M_JS + "_gap_encode", M_JS + "_gap", M_JS + "_fixedc",
                    M_AF + "FileAnonymizer.anonymize_io"],
-        only=["#safe", "#raises", "#call", "decreases", "returns_a_value", "#enc", "#unroll"],
+        generators=[_ro.gen_juniper_valid],
+        only=["#safe", "#raises", "#call", "decreases", "returns_a_value", "#enc", "#unroll", "juniper.VALID#"],
         standins=[("rt_files", "C14")],
         design_ref="7/C14",
         technique="exception-freedom obligations of pyvc (every indexing, dict lookup, int(), chr(), library "
